@@ -57,7 +57,9 @@ def CFG(i, unit, *slots, fade=0, dsync=0):
             s = dict(o, durs=list(o['durs']), lt=list(o['lt']), col=list(o['col']), coil=list(o['coil']),
                      sp=list(o['sp']), same=s['same'])
         sh.append(s)
-    assert abs(dsync * unit - round(dsync * unit)) < 1e-9
+    # every schedule starts at a multiple of 16 s: all sync grids (whole ms) must divide it
+    for g in [dsync] + [s['sync'] for s in sh]:
+        assert g <= 0 or (abs(g * unit - round(g * unit)) < 1e-9 and 16000 % round(g * unit) == 0), (i, g)
     return dict(id=i, unit=unit, sh=sh, fade=fade, dsync=dsync)
 
 
@@ -103,8 +105,8 @@ TABLE = [
         AGAIN(2)),
     CFG(31, 125, S([1, 1], lt=[1, 2], loops=-1, key='a', sync=2), AGAIN(1), AGAIN(1)),
     CFG(32, 100, S([1, 1, 1], lt=[1, 2, 1], loops=1, manual=True, start=2, key='a', quiet=True), AGAIN(1)),
-    CFG(33, 100, S([2, 2], lt=[1, 2], loops=-1, key='a', quiet=True), AGAIN(1),
-        S([1, 1], lt=[2, 2], col=[3, 4], loops=0, key='a', sync=3, pool=True)),
+    CFG(33, 100, S([2, 2], lt=[1, 2], loops=-1, key='a', quiet=True), AGAIN(1), AGAIN(1),
+        S([1, 1], lt=[2, 2], col=[3, 4], loops=0, key='a', sync=4, pool=True)),
     CFG(34, 100, S([1, 2], loops=2, key='a', sync=2, quiet=True, start=2), AGAIN(1),
         S([3], lt=[2], col=[4], loops=-1, key='b', prio=4)),
     # --- machines with a default_show_sync_ms: requests that give no sync_ms (the default applies), an explicit 0
@@ -116,8 +118,8 @@ TABLE = [
         S([1, 2], lt=[2, 2], col=[4, 2], loops=0, sync=0, key='c', via='direct', tok=True), dsync=2),
     CFG(43, 125, S([2, 1], loops=-1, sync=0, key='a', quiet=True), S([1, 1], col=[3, 4], loops=-1, sync=-1, key='a', quiet=True),
         AGAIN(2), dsync=4),
-    CFG(44, 50, S([2, 2], lt=[1, 2], loops=0, sync=3, key='a', blockq=True, pool=True),
-        S([1], lt=[2], col=[4], loops=2, sync=-1, key='b'), dsync=4),
+    CFG(44, 50, S([2, 2], lt=[1, 2], loops=0, sync=2, key='a', blockq=True, pool=True),
+        S([1], lt=[2], col=[4], loops=2, sync=-1, key='b', prio=3), dsync=4),
 ]
 CFGS = {c['id']: c for c in TABLE}
 
@@ -381,7 +383,7 @@ def _exec_all(mdir, cid, sched):
             break
         ln['ref'] = [refs[s][i][0] if i < len(refs[s]) else [-9] * NL for s in range(nsl)]
         ln['refco'] = [refs[s][i][1] if i < len(refs[s]) else False for s in range(nsl)]
-    return {'cfg': cfg_rec(c), 'ev': lines, '_sched': eff, '_notes': _H.get('notes', [])}
+    return {'cfg': cfg_rec(c), 'ev': lines, '_sched': eff, '_notes': _H.get('notes', []), '_cov': _H.get('cov', {})}
 
 
 def _exec(mdir, cid, sched, skip, dynamic):
@@ -408,8 +410,13 @@ def _exec(mdir, cid, sched, skip, dynamic):
     lights[0].default_fade_ms = 0
     lights[1].default_fade_ms = c['fade'] * c['unit']
     notes = []
+    cov = {}
     if not skip:
         _H['notes'] = notes
+        _H['cov'] = cov
+
+    def count(what):
+        cov[what] = cov.get(what, 0) + 1
     coil = m.coils['c1']
     inst = m.show_player.instances['_global']['show_player']
 
@@ -483,6 +490,8 @@ def _exec(mdir, cid, sched, skip, dynamic):
         if op == 'play':
             if player:
                 held = inst.get(kn)
+                was = None if held is None or held.stopped else \
+                    'waits for its sync point' if held.current_step_index is None else 'runs'
                 name = 'vs_play_%d_%d' % (cid, root(sh))
                 if sc['blockq']:
                     m.events.post_queue(name, callback=mk_qdone(sh))
@@ -490,6 +499,8 @@ def _exec(mdir, cid, sched, skip, dynamic):
                     m.events.post(name)
                 settle()
                 new = inst.get(kn)
+                if was:
+                    count('play to a key held by a show that %s: %s' % (was, 'instance kept' if new is held else 'replaced'))
                 if new is not None and new is not held:
                     # a new instance holds the key; the one that held it can no longer be reached through show_player
                     for o in range(1, nsl + 1):
@@ -508,6 +519,8 @@ def _exec(mdir, cid, sched, skip, dynamic):
             if rs[sh] is not None and rs[sh] not in _H['rs']:
                 _H['rs'].append(rs[sh])
         elif op == 'stop':
+            if r is not None and not r.stopped and r.current_step_index is None:
+                count('stop of a show that waits for its sync point')
             m.events.post('vs_stop_' + kn) if player else r.stop()
         elif op == 'pause':
             m.events.post('vs_pause_' + kn) if player else r.pause()
@@ -656,7 +669,7 @@ def handmade():
         (12, [P(1), A, P(2), St(2), A, A, A]),
         # ... and to a show that runs: at the target step (kept), one step behind it (advanced), elsewhere (replaced)
         (32, [P(1), A, P(2), A, {'op': 'step_back', 'sh': 1, 'n': 1}, P(2), A, P(2), A, A]),
-        (33, [P(1), A, P(2), A, A, P(2), A, A, P(3), A, P(2), A, A, A, A]),
+        (33, [P(1), A, P(2), A, A, P(2), A, A, P(4), A, P(3), A, A, A, A]),
         # a machine-wide default sync grid: no sync_ms given / an explicit 0 / a grid of its own
         (40, [A, P(1), A, A, A, A, A, St(1), A]),
         (41, [A, P(1), P(2), A, A, A, A, A]),
@@ -758,6 +771,18 @@ def run(ctx):
             if e['op'] == 'adv' and any(len(x['steps']) > 1 for x in e.get('S', [])):
                 ops['adv with a show catching up'] = ops.get('adv with a show catching up', 0) + 1
     ctx.coverage['lines_by_request'] = ops
+    cov = {}
+    for t in traces:
+        for k, n in t.get('_cov', {}).items():
+            cov[k] = cov.get(k, 0) + n
+        c = t['cfg']
+        for sc in c['sh']:
+            if c['dsync'] and any(e['op'] == 'play' and c['sh'][e['sh'] - 1] is sc for e in t['ev']):
+                k = 'play on a machine with default_show_sync_ms: sync_ms %s' % (
+                    'not given' if sc['sync'] < 0 else 'explicitly 0' if sc['sync'] == 0 else 'of its own')
+                cov[k] = cov.get(k, 0) + 1
+    ctx.coverage['sync_and_key_situations'] = cov
+    ctx.log('situations: %s' % cov)
     ctx.sample({'kind': 'show-trace', 'cfg': traces[0]['cfg'], 'trace': traces[0]['ev'][:8]})
     # executions the statement does not explain: is it one of the code-as-is deviations?
     rej = sorted(i for i, info in v.rejected.items() if info.get('line') is not None)
